@@ -66,6 +66,38 @@ def random_run_config(rng, P):
                 u_init=[z() for _ in range(n)], maxiter=40)
 
 
+def iteration_config(rng, P):
+    """one step, 2 or 3 levels, exactly K iterations from the spread initial guess (the residual tolerance is never met):
+    general (not nilpotent) operators, arbitrary numbers of sweeps on the non-coarsest levels"""
+    kind = rng.choice(['impl', 'imex', 'expl', 'impl'])
+    n = rng.choice([1, 2])
+    NL = rng.choice([2, 3, 3])
+    Ms = sorted([rng.randint(1, 3) for _ in range(NL)], reverse=True)
+    z = lambda: rng.randrange(P)  # noqa
+    dt = rng.choice([1, 2])
+    levels = []
+    for l in range(NL):
+        M = Ms[l]
+        A = [[z() for _ in range(n)] for _ in range(n)]
+        B = [[0] * n for _ in range(n)] if kind == 'impl' else [[z() for _ in range(n)] for _ in range(n)]
+        Q = [[z() for _ in range(M)] for _ in range(M)]
+        QI = [[0] * M for _ in range(M)] if kind == 'expl' else [[z() if j <= i else 0 for j in range(M)] for i in range(M)]
+        QE = [[0] * M for _ in range(M)] if kind == 'impl' else [[z() if j < i else 0 for j in range(M)] for i in range(M)]
+        levels.append(dict(kind=kind, M=M, n=n, dt=dt, rightnode=True, collupdate=False, A=A, B=B, c=0, Q=Q, QI=QI, QE=QE,
+                           w=list(Q[M - 1]), tn=[0] * M, g=[0] * n))
+    transfers = []
+    for l in range(NL - 1):
+        Mf, Mc = levels[l]['M'], levels[l + 1]['M']
+        Rc = [[z() for _ in range(Mf)] for _ in range(Mc)]
+        for row in Rc:
+            row[-1] = (1 - sum(row[:-1])) % P
+        transfers.append(dict(Rc=Rc, Pc=[[z() for _ in range(Mc)] for _ in range(Mf)],
+                              Rs=[[z() for _ in range(n)] for _ in range(n)], Ps=[[z() for _ in range(n)] for _ in range(n)]))
+    return dict(P=P, kind=kind, NP=1, NL=NL, levels=levels, transfers=transfers, pred=None, jac=True,
+                nsweeps=[rng.choice([1, 2, 3]) for _ in range(NL - 1)] + [1], nsteps=1, u_init=[z() for _ in range(n)],
+                maxiter=rng.choice([1, 1, 2]), restol=-1.0, probe=[z() for _ in range(n)])
+
+
 def run(cfg):
     """returns the recorded steps of the run (or raises)"""
     from pySDC.implementations.controller_classes.controller_nonMPI import controller_nonMPI
@@ -82,7 +114,7 @@ def run(cfg):
         pp = {k: [d[1][k] for d in descs] for k in descs[0][1]}
         swp = {k: [d[2][k] for d in descs] for k in descs[0][2]}
         desc = dict(problem_class=pc, problem_params=pp, sweeper_class=sweeper_class(kind), sweeper_params=swp,
-                    level_params=dict(dt=dt_float(cfg['levels'][0]['dt']), restol=0.5, nsweeps=list(cfg['nsweeps'])),
+                    level_params=dict(dt=dt_float(cfg['levels'][0]['dt']), restol=cfg.get('restol', 0.5), nsweeps=list(cfg['nsweeps'])),
                     step_params=dict(maxiter=cfg['maxiter']))
         if cfg['NL'] > 1:
             desc['base_transfer_class'] = ZpBaseTransfer
